@@ -359,7 +359,7 @@ func TestCheck(t *testing.T) {
 		incs = append(incs, i)
 	}
 	incs = append(incs, 1000, 10_000, 100_000, 1_000_000, 10_000_000, 100_000_000, 1_000_000_000)
-	maxR := int64(r.N(12000, 60000))
+	maxR := int64(r.N(12000, 200000))
 	ev.Parallel(int(maxR), func(wk, i int) {
 		lc := lcs[wk]
 		rem := int64(i + 1)
@@ -407,7 +407,7 @@ func TestCheck(t *testing.T) {
 		r.Merge(lc)
 	})
 	// random clocks, incl. movetime
-	nr := r.N(4_000_000, 40_000_000)
+	nr := r.N(4_000_000, 400_000_000)
 	ev.Parallel(nr/1000, func(wk, i int) {
 		lc := lcs[wk]
 		rng := r.RNG("c14-rand", i)
@@ -426,7 +426,7 @@ func TestCheck(t *testing.T) {
 		r.Merge(lc)
 	})
 	// (b) end to end in virtual time (sequential: synctest bubbles are cheap, ~1 ms each)
-	ne := r.N(12000, 120000)
+	ne := r.N(12000, 400000)
 	rng := r.RNG("c14-e2e", 0)
 	for i := 0; i < ne; i++ {
 		var c clock
